@@ -9,14 +9,15 @@ import gen
 import exact as ex
 
 PROP = 'C16'
-MOM = {'Moments4': 4, 'M4': 4, 'M5': 5, 'M6': 6, 'M7': 7, 'M8': 8, 'M9': 9, 'M10': 10}
+MOM = {'Moments4': 4, 'M4': 4, 'M5': 5, 'M6': 6, 'M7': 7, 'M8': 8, 'M9': 9, 'M10': 10, 'M12': 12, 'M17': 17, 'M20': 20}
+PAR = ('Mean', 'Variance', 'Skewness', 'Kurtosis', 'Min', 'Max', 'Moments4', 'M6')
 SINGLE = ['Mean', 'Variance', 'Skewness', 'Kurtosis', 'Min', 'Max', 'Quantile'] + list(MOM)
 PAIR = ['WeightedMean', 'WeightedMeanWithError', 'Covariance']
 RULE = ('The sentinel table transcribed from the property statement and the doc comments: (type x accessor x state) -> '
         'NaN / +inf / -inf / exact value / must-panic / finite. States: empty (new() and default()); one observation x; '
         'constant add-only streams of x of length 2..10, 100, 10^4; non-constant samples of size 2, 3, 4 (every accessor must '
         'be a finite number except the documented NaNs); zero total weight. x ranges over ~200 values spanning the C01 domain '
-        '(both signs, 0, 1e+-30, one-ulp neighbours). Every public estimator type incl. define_moments! orders 4..10. Any '
+        '(both signs, 0, 1e+-30, one-ulp neighbours). Every public estimator type incl. define_moments! orders 4..10, 12, 17, 20; empty also by collecting nothing (sequentially, in parallel). Any '
         'panic other than standardized_moment(p>=3) at zero variance is a violation, and that one must panic. '
         'distinct_nontrivial = distinct (type, program) cases.')
 ASSUME = ['driver faithfully prints accessor bit patterns and converts panics of single accessors into "!" tokens',
@@ -255,8 +256,21 @@ def shard(desc):
         m0 = c.op('O', 0)
         c.op('D', 1)
         m1 = c.op('O', 1)
+        ways = [(m0, 'empty', table(typ, 'empty', n=0), 'new()'), (m1, 'empty', table(typ, 'empty', n=0), 'default()')]
+        if typ != 'Quantile':
+            # an empty estimator reached by collecting nothing (by value, by reference, from a parallel iterator)
+            c.op('F', 2, [])
+            ways.append((c.op('O', 2), 'empty', table(typ, 'empty', n=0), 'collect of nothing'))
+            c.op('FR', 3, [])
+            ways.append((c.op('O', 3), 'empty', table(typ, 'empty', n=0), 'collect of nothing, by reference'))
+            if typ in PAR and common.has_rayon(variant):
+                c.op('P', 4, 2, 0, 0, 'v', 0, 0, [])
+                ways.append((c.op('O', 4), 'empty', table(typ, 'empty', n=0), 'parallel collect of nothing'))
+                c.op('P', 5, 3, 1, 1, 'r', 0, 't' + common.f2h(2.0), [1.0, 1.5])
+                ways.append((c.op('O', 5), 'empty', table(typ, 'empty', n=0), 'parallel collect behind a filter that rejects everything'))
+                res.count('empty_parallel_collects', 2)
         cases.append(c)
-        plan.append((c, typ, [(m0, 'empty', table(typ, 'empty', n=0), 'new()'), (m1, 'empty', table(typ, 'empty', n=0), 'default()')]))
+        plan.append((c, typ, ways))
         # one observation and constant streams
         for x in vals:
             c = Case(nid(), typ, params)
